@@ -1180,3 +1180,257 @@ def r10(cx):
 
 
 RS.explanation += ' update_status changes the state of owned jobs only (R8b); a just-suspended foreground job is made the current job (R10).'
+
+
+# ---------------------------------------------------------------------------------------
+# added after seed C12-s9 (update_status returns early, before the re-selection, when the new state is the expected one)
+_REPORT_ONLY_FIELDS = ('expected_state', 'state_changed')
+
+
+@RS.rule('C12.R11', 'K-PASS+K-GUARD', 'update_status: every report for a listed, owned, live job REACHES the re-selection step - every path from the '
+         'entry (and from the write of Job::state) to a return passes a branch on Job::is_suspended of the updated job evaluated after the '
+         'state is stored, except over the reviewed "pid not listed / process already terminated / job not owned" exits (R8, R8b); and no test '
+         'that the re-selection writes depend on reads Job::expected_state / Job::state_changed (they only decide whether the change is reported)')
+def r11(cx):
+    F = cx.F
+    fn = JL + 'update_status'
+    body = F.inlined(F.body(fn))
+    cx.fn(body.fn)
+    du = Q.DefUse(body)
+    fw = Q.field_writes(body, JOB, 'state')
+    cx.require(fw, 'JobList::update_status no longer writes Job::state (anchor moved)')
+    direct = [w for w in fw if w[3] == 'assign'] or fw
+    state_w = sorted({w[0] for w in direct})
+
+    def plain_def(l):
+        """The one definition of the local itself (stores through it, `(*l).f = ..`, do not redefine it)."""
+        ds = [d for d in du.defs.get(l, []) if ((d[2].get('lhs') or d[2].get('dest')).get('p') or [None])[0] != '*']
+        return ds[0] if len(ds) == 1 and Q.is_plain(ds[0][2].get('lhs') or ds[0][2].get('dest')) else None
+
+    def resolve(p):
+        """Follow a place through single-definition copies / moves / (re)borrows (as _trace_place, for locals that are also stored through)."""
+        for _ in range(24):
+            if p is None or (1 <= p['l'] <= body.argc):
+                return p
+            proj = list(p.get('p') or [])
+            d = plain_def(p['l'])
+            if d is None or d[1] == 't' or d[2]['k'] != 'assign':
+                return p
+            rv = d[2]['rv']
+            if rv['k'] == 'use' and Q.operand_place(rv['o']) is not None:
+                q = Q.operand_place(rv['o'])
+                p = {'l': q['l'], 'p': list(q.get('p') or []) + proj}
+            elif rv['k'] == 'ref' and proj and proj[0] == '*':
+                p = {'l': rv['pl']['l'], 'p': list(rv['pl'].get('p') or []) + proj[1:]}
+            elif rv['k'] == 'ref' and not proj:
+                p = {'l': rv['pl']['l'], 'p': list(rv['pl'].get('p') or [])}
+            else:
+                return p
+        return p
+
+    def base_of(place):
+        """The job a place denotes: the place without its trailing Job field projections, followed through copies and reborrows."""
+        place = resolve(place)
+        proj = list(place.get('p') or [])
+        while proj and isinstance(proj[-1], dict) and 'f' in proj[-1] and proj[-1].get('adt') == JOB:
+            proj.pop()
+        return {'l': place['l'], 'p': proj}
+
+    def strip_deref(p):
+        """Identity of the job a resolved place denotes: the element of the job list a `jobs[i]` / `self[i]` borrow was taken of (by the key,
+        so that a second borrow with the same key is the same job), else the place itself."""
+        if p is None:
+            return None
+        proj = list(p.get('p') or [])
+        while proj and proj[-1] == '*':
+            proj.pop()
+        if not proj:
+            d = plain_def(p['l'])
+            if d is not None and d[1] == 't' and len(d[2]['a']) == 2 and Q.callee_is(d[2], [re.compile(r'ops::index::Index(Mut)?<usize>>::index(_mut)?$')]):
+                k = Q.operand_place(d[2]['a'][1])
+                k = resolve(k) if k is not None else None
+                if k is not None:
+                    return ('element', k['l'], repr(k.get('p') or []))
+        return (p['l'], repr(proj))
+    jobs_written = {strip_deref(base_of(w[2]['lhs'] if w[3] == 'assign' else w[2]['rv']['pl'])) for w in direct}
+    jobs_written.discard(None)
+    cx.require(jobs_written, 'the job whose state update_status writes cannot be identified')
+
+    # --- the re-selection step: a branch on "is the updated job suspended now" (after every store of its state)
+    switch_locals = {}
+    for b in body.live_blocks():
+        t = body.term(b)
+        if t['k'] == 'switch':
+            l = Q.operand_local(t['d'])
+            if l is not None:
+                switch_locals.setdefault(l, []).append(b)
+    step = set()
+    for blk, t in Q.find_calls(body, SUSPENDED_TESTS):
+        if not t['a'] or not all(body.dominates(w, blk) for w in state_w):
+            continue
+        rp = Q.operand_place(t['a'][0])
+        if rp is None:
+            continue
+        if strip_deref(base_of(rp)) not in jobs_written:
+            continue
+        branched = Q.forward_taint(body, {t['dest']['l']}, through_calls=[]) & set(switch_locals)
+        cx.site('%s: is-suspended test of the updated job after the state is stored at %s, branched on: %s' % (body.fn, body.loc(t), bool(branched)))
+        if branched:
+            step.add(blk)
+
+    # --- the reviewed exits: edges on which nothing is updated by design
+    def reviewed(org, lab, depth=3):
+        org, lab = Q.peel_not(du, org, lab)
+        if org['k'] == 'place' and Q.is_plain(org['pl']) and lab and lab[0] == 'bool' and depth:
+            # a materialised `let ok = alive && owned; if !ok { return None }`: the flag has the tested value only where a constant of that
+            # value is stored on a reviewed edge, or where a reviewed test with that value is stored
+            defs = du.defs.get(org['pl']['l'], [])
+            if len(defs) < 2 or not all(d[1] != 't' and d[2]['k'] == 'assign' and Q.is_plain(d[2]['lhs']) and d[2]['rv']['k'] == 'use' for d in defs):
+                return False
+            why = []
+            for blk, j, st in defs:
+                o = st['rv']['o']
+                if 'cp' not in o and 'mv' not in o:
+                    c = str(o.get('c'))
+                    if c not in ('true', 'false', 'const true', 'const false'):
+                        return False
+                    if c.endswith('true') != lab[1]:
+                        continue
+                    why.append(next((r for r in (reviewed(o2, l2, depth - 1) for o2, l2, e in Q.dominating_conditions(F, body, du, blk)) if r), False))
+                else:
+                    why.append(reviewed(du.origin(o), lab, depth - 1))
+            return bool(why) and all(why) and ' / '.join(sorted(set(why)))
+        if org['k'] == 'call' and Q.callee_is(org['t'], ['yash_env::job::ProcessState::is_alive']):
+            return lab == ('bool', False) and 'process already terminated'
+        if org['k'] == 'call' and Q.callee_is(org['t'], [re.compile(r'yash_env::job::(Job|ProcessState|ProcessResult)::(is_finished|is_terminated|is_halted)$')]):
+            return lab == ('bool', True) and 'process already terminated'
+        if org['k'] == 'place' and any(isinstance(e, dict) and e.get('f') == 'is_owned' and e.get('adt') == JOB for e in org['pl'].get('p') or []):
+            return lab == ('bool', False) and 'job not owned'
+        if org['k'] == 'discr' and lab in (('variant', 'Break'), ('variant', 'None')):
+            src = Q.value_source(body, du, {'cp': {'l': org['pl']['l']}})
+            if src is not None and Q.callee_is(src, [JL + 'find_by_pid', H + 'get']):
+                return 'pid not listed'
+        return False
+    exits = {}
+    for u in sorted(body.live_blocks()):
+        if body.term(u)['k'] != 'switch' or any(body.dominates(w, u) for w in state_w):
+            continue
+        ec = Q.edge_condition(F, body, du, u)
+        if ec is None:
+            continue
+        org, labels = ec
+        for v, labs in labels.items():
+            why = [reviewed(org, lab) for lab in labs]
+            if why and all(why):
+                exits[(u, v)] = why[0]
+    for (u, v), why in sorted(exits.items()):
+        cx.site('%s: reviewed exit edge "%s" at %s' % (body.fn, why, body.loc(body.term(u))))
+
+    def feasible_path(starts, through, removed_edges=()):
+        """A path from a start block to a return that avoids `through`, or None.  Two branches on the same single-definition bool (a call
+        result or a comparison computed once: `if !was && now {..} else if was && !now {..}` tests `was` twice) are taken consistently."""
+        from collections import deque
+
+        def key_of(u):
+            ec = Q.edge_condition(F, body, du, u)
+            if ec is None:
+                return None, None
+            org, labels = ec
+            out = {}
+            key = None
+            for v, labs in labels.items():
+                vals = set()
+                for lab in labs:
+                    o2, l2 = Q.peel_not(du, org, lab)
+                    if not l2 or l2[0] != 'bool' or o2.get('k') not in ('call', 'binop') or o2.get('b') is None:
+                        return None, None
+                    if not body.dominates(o2['b'], u):
+                        return None, None
+                    key = (o2['k'], o2['b'], id(o2.get('t') or o2.get('rv')))
+                    vals.add(l2[1])
+                out[v] = vals
+            return key, out
+        goals = set(body.return_blocks())
+        for s0 in starts:
+            if s0 in through:
+                continue
+            st0 = (s0, ())
+            prev = {st0: None}
+            q = deque([st0])
+            while q:
+                b, kn = q.popleft()
+                if b in goals:
+                    path, cur = [], (b, kn)
+                    while cur is not None:
+                        path.append(cur[0])
+                        cur = prev[cur]
+                    return path[::-1]
+                known = dict(kn)
+                key, targets = key_of(b) if body.term(b)['k'] == 'switch' else (None, None)
+                for v in body.succ(b):
+                    if v in through or (b, v) in removed_edges:
+                        continue
+                    kn2 = known
+                    if key is not None and v in targets and len(targets[v]) == 1:
+                        val = next(iter(targets[v]))
+                        if known.get(key, val) != val:
+                            continue
+                        kn2 = dict(known)
+                        kn2[key] = val
+                    st = (v, tuple(sorted(kn2.items())))
+                    if st not in prev:
+                        prev[st] = (b, kn)
+                        q.append(st)
+        return None
+
+    if not step:
+        cx.violation(fn, 'no-reselection-step', 'update_status never branches on Job::is_suspended of the updated job after storing the new state: '
+                     'the current/previous job is not re-selected when a job is suspended or resumed', loc=body.loc(direct[0][2]))
+    else:
+        p = feasible_path(state_w, step)
+        if p is not None:
+            cx.violation(fn, 'reselection-skipped:after-state-write', 'update_status can return after storing the new state of the job without reaching the '
+                         're-selection of the current/previous job: when the current job is resumed (e.g. by `bg`, which announces the Running '
+                         'state with JobRefMut::expect) while another job is suspended, `%+` keeps designating the running job',
+                         loc=body.loc(body.term(p[-1])), path=Q.render_path(body, p))
+        p = feasible_path([0], step, set(exits))
+        if p is not None and not any(b in state_w for b in p):
+            cx.violation(fn, 'reselection-skipped:before-state-write', 'update_status can return for a listed, owned, live job without storing the reported '
+                         'state and re-selecting the current/previous job (only "pid not listed", "process already terminated" and "job not owned" '
+                         'are reviewed reasons to ignore a report)', loc=body.loc(body.term(p[-1])), path=Q.render_path(body, p))
+
+    # --- the re-selection does not depend on the report-only fields
+    def reads_flag(p):
+        return p is not None and any(isinstance(e, dict) and e.get('f') in _REPORT_ONLY_FIELDS and e.get('adt') == JOB for e in p.get('p') or [])
+    tainted = set()
+    changed = True
+    while changed:
+        changed = False
+        for i, j, s in body.stmts():
+            if s['k'] != 'assign' or s['lhs'].get('p') or s['lhs']['l'] in tainted:
+                continue
+            if any(reads_flag(p) or (p['l'] in tainted and p['l'] > body.argc) for p in Q.rvalue_places(s['rv'])):
+                tainted.add(s['lhs']['l'])
+                changed = True
+        for i, t in body.calls():
+            if t['dest'].get('p') or t['dest']['l'] in tainted:
+                continue
+            if any(reads_flag(Q.operand_place(a)) or ((Q.operand_place(a) or {}).get('l') in tainted) for a in t['a']):
+                tainted.add(t['dest']['l'])
+                changed = True
+    n = 0
+    for fld in _INDEX_FIELDS:
+        for blk, j, s, kind, f in Q.field_writes(body, JOBLIST, fld):
+            n += 1
+            bad = sorted({e[0] for org, lab, e in Q.dominating_conditions(F, body, du, blk)
+                          if Q.operand_local(body.term(e[0])['d']) in tainted})
+            cx.site('%s: write of %s at %s; dominating tests that read expected_state / state_changed: %d' % (body.fn, fld, body.loc(s), len(bad)))
+            if bad:
+                cx.violation(fn, 'reselect-depends-on-report-flag:%s' % fld, 'whether the %s is re-selected depends on Job::expected_state / '
+                             'Job::state_changed: a state change that was announced with JobRefMut::expect (bg, fg) still suspends or resumes the '
+                             'job, so `%%+` / `%%-` must be re-selected all the same' % fld, loc=body.loc(body.term(bad[0])))
+    cx.require(n >= 3, 'update_status no longer reselects the current/previous job (found %d writes)' % n)
+
+
+RS.explanation += (' Every report for a listed, owned, live job reaches the re-selection step of update_status, and the re-selection does not depend on '
+                   'expected_state / state_changed (R11).')
